@@ -108,7 +108,8 @@ CHECKS = {
         text=("Structured Map / Parallel / nested machines whose branch Tasks carry their index are run under every interleaving of branch events, replies and timers (all Map sizes 0..2 x MaxConcurrency 0..n+1, "
               "Parallel of 2 with one or two Tasks per branch, Parallel containing a Map; larger and nested cases in the thorough tier, each enumeration bounded and its completeness reported), and under sampled "
               "schedules with per-item reply delays for sizes up to 4/8. For every schedule: output[i] is branch/item i's reference output, the state after the join is requested only after the last branch reply "
-              "reached the engine and exactly once, each item is requested exactly once, and iterations in flight never exceed MaxConcurrency."),
+              "reached the engine and exactly once, each item is requested exactly once, and iterations in flight never exceed MaxConcurrency. Also iterations that enter the same nested Parallel twice (each entry a fan-out of its own) "
+              "and workers that answer twice (a duplicate fills no slot and launches nothing)."),
         design_ref="DESIGN.md section 5 C05",
         note="All branches succeed here; in the exhaustive part time passes only when nothing else is enabled. " + TRUST,
     ),
@@ -184,7 +185,9 @@ CHECKS = {
               "evaluate_payload_template and by an independent recursive-descent reference; values, failure kinds (IntrinsicFailure / path failure, never another exception), "
               "non-mutation, no reachability of interpreter internals and independence from PYTHONHASHSEED are checked; a slice runs through one-state executions to check the "
               "States.IntrinsicFailure / States.Runtime mapping, and a Map-state family checks that an ItemSelector is evaluated per item against the Map state's context in "
-              "every MaxConcurrency block and that a selector that cannot be evaluated fails the Map state cleanly (with and without a Catch)."),
+              "every MaxConcurrency block and that a selector that cannot be evaluated fails the Map state cleanly (with and without a Catch). ArrayRange is generated at exactly 999..1002 items and up to "
+              "10^100 items with bounds up to 10^30 in a process whose address space is bounded, so that building the array instead of refusing it shows as MemoryError; a coverage-guided (atheris) family "
+              "runs the same oracle on mutated expression texts."),
         design_ref="DESIGN.md section 5 C13",
         note="Only the reference's verdicts are asserted; cases it marks unspecified (non-canonical base64, empty split segments, brace use outside Format, ...) are skipped and counted. " + TRUST,
     ),
